@@ -50,10 +50,18 @@ namespace GeographicLib {
       const char* p = std::strchr(s, c);
       return p ? int(p - s) : -1;
     }
+    // X7: closed guard lets the index reach the terminating NUL of the alphabet
+    static char Pick(int i) {
+      if (i < 0 || i > 4) throw GeographicErr("bad index");
+      return alpha_[i];
+    }
+    static const char* const alpha_;
   private:
     mutable real _memo;
     int _n;
     int* _p;
   };
+
+  const char* const FixtureShared::alpha_ = "ABCD";
 
 }
